@@ -182,6 +182,116 @@ def rule_reverse_table(ctx: Ctx) -> None:
                  construct="run_circuit: list not reversed")
 
 
+_BLOCK_SPEC = {
+    # tag -> (index pattern of the tested entry, predicate on its (x, z) bits, gate arguments)
+    "CNOT": (("j", "k"), lambda x, z: x == 1, ("j", "k")),                 # an X right of the diagonal is cleared by CNOT(j, k)
+    "CZ": (("j", "k"), lambda x, z: x == 0 and z == 1, ("j", "k")),        # a Z right of the diagonal (no X left there) by CZ(j, k)
+    "P": (("j", "j"), lambda x, z: x == 1 and z == 1, ("j",)),             # a Y on the diagonal becomes X
+    "H": (("j", "j"), lambda x, z: x == 1 and z == 0, ("j",)),             # an X on the diagonal becomes Z
+    "ROWSUM": (("k", "j"), lambda x, z: x == 0 and z == 1, ("j", "k")),    # a Z below the diagonal: row j multiplied into row k
+}
+
+
+def rule_block_conditions(ctx: Ctx) -> None:
+    """inverse.block-conditions: each elimination block of inverse_circuit (after the pivot-finding block) is a sweep `for j in range(n)`
+    [`for k in range(j + 1, n)`] that tests one entry of the tableau and applies one operation.  Which entry (row / column pattern),
+    for which values of its (x, z) bits (the test is unfolded over the four values), and with which arguments is fixed by what the
+    block is for (table _BLOCK_SPEC, one reason per line)."""
+    from .. import linear
+    repo = ctx.repo
+    m = repo.module(STABF)
+    fn = repo.anchor(STABF, "inverse_circuit")
+    ctx.touch(m, fn)
+    tab = func_params(fn)[0]
+    nq = next((norm(a.targets[0]) for a in fn.body if isinstance(a, ast.Assign) and norm(a.value) == f"{tab}.n_qubits"), None)
+    if nq is None:
+        raise AnalysisError("inverse_circuit: n_qubits local not found")
+    seen = {}
+    bad = []
+    for outer in [l for l in fn.body if isinstance(l, ast.For) and isinstance(l.target, ast.Name)]:
+        if any((call_attr(c) or getattr(c.func, "id", "")) == "pauli_type_finder" for c in calls_in(outer)):
+            continue   # the pivot-finding block has its own rules
+        ifs = [i for i in ast.walk(outer) if isinstance(i, ast.If)]
+        if len(ifs) != 1:
+            continue
+        I = ifs[0]
+        tags = [c.args[0].elts[0].value for c in calls_in(I) if call_attr(c) == "append" and c.args and isinstance(c.args[0], ast.Tuple)
+                and c.args[0].elts and isinstance(c.args[0].elts[0], ast.Constant)]
+        rs = [c for c in calls_in(I) if (call_attr(c) or getattr(c.func, "id", "")) == "tab_row_sum"]
+        kind = tags[0] if tags else ("ROWSUM" if rs else None)
+        if kind not in _BLOCK_SPEC:
+            continue
+        (ri, ci), pred, gargs = _BLOCK_SPEC[kind]
+        J = outer.target.id
+        inner = next((l for l in outer.body if isinstance(l, ast.For) and isinstance(l.target, ast.Name)), None)
+        K = inner.target.id if inner is not None else None
+        names = {"j": J, "k": K}
+        where = f"{kind} block"
+        # loop ranges
+        if not (isinstance(outer.iter, ast.Call) and call_name(outer.iter) == "range" and len(outer.iter.args) == 1 and norm(outer.iter.args[0]) == nq):
+            bad.append((outer, f"{where}: the sweep runs over `{short(outer.iter)}` instead of range({nq})"))
+        if "k" in (ri, ci) or "k" in gargs:
+            if inner is None:
+                bad.append((outer, f"{where}: the inner sweep over k > j is missing"))
+                continue
+            it = inner.iter
+            okr = isinstance(it, ast.Call) and call_name(it) == "range" and len(it.args) == 2 and linear.clean(linear.lin(it.args[0]) or {"?": 1}) == {J: 1, "": 1} \
+                and norm(it.args[1]) == nq
+            if not okr:
+                bad.append((inner, f"{where}: the inner sweep runs over `{short(it)}` instead of range({J} + 1, {nq})"))
+        # the tested entry and its truth table
+        subs = {norm(x): x for x in ast.walk(I.test) if isinstance(x, ast.Subscript) and isinstance(x.slice, ast.Tuple) and len(x.slice.elts) == 2}
+        want_idx = f"[{names[ri]}, {names[ci]}]"
+        xs = [k_ for k_ in subs if k_ == f"{tab}.x_matrix{want_idx}"]
+        zs = [k_ for k_ in subs if k_ == f"{tab}.z_matrix{want_idx}"]
+        others = [k_ for k_ in subs if k_ not in xs + zs]
+        if others:
+            bad.append((I.test, f"{where}: the test reads `{others[0]}`; the entry to look at is row {names[ri]}, column {names[ci]}"))
+            continue
+
+        def ev(e, env):
+            if isinstance(e, ast.BoolOp):
+                vs = [ev(v, env) for v in e.values]
+                return all(vs) if isinstance(e.op, ast.And) else any(vs)
+            if isinstance(e, ast.UnaryOp) and isinstance(e.op, ast.Not):
+                return not ev(e.operand, env)
+            if isinstance(e, ast.Compare) and len(e.ops) == 1:
+                l_, r_ = e.left, e.comparators[0]
+                lv = env[norm(l_)] if norm(l_) in env else (l_.value if isinstance(l_, ast.Constant) else None)
+                rv = env[norm(r_)] if norm(r_) in env else (r_.value if isinstance(r_, ast.Constant) else None)
+                if lv is None or rv is None:
+                    raise AnalysisError(f"inverse_circuit: cannot unfold `{short(e)}`")
+                return {ast.Eq: lv == rv, ast.NotEq: lv != rv, ast.Gt: lv > rv, ast.Lt: lv < rv, ast.GtE: lv >= rv, ast.LtE: lv <= rv}[type(e.ops[0])]
+            if norm(e) in env:
+                return bool(env[norm(e)])
+            raise AnalysisError(f"inverse_circuit: cannot unfold `{short(e)}`")
+        wrong = []
+        for x_ in (0, 1):
+            for z_ in (0, 1):
+                env = {f"{tab}.x_matrix{want_idx}": x_, f"{tab}.z_matrix{want_idx}": z_}
+                if bool(ev(I.test, env)) != bool(pred(x_, z_)):
+                    wrong.append({(0, 0): "I", (1, 0): "X", (0, 1): "Z", (1, 1): "Y"}[(x_, z_)])
+        if wrong:
+            bad.append((I.test, f"{where}: the test `{short(I.test, 70)}` answers wrongly when the entry at row {names[ri]}, column {names[ci]} is {', '.join(wrong)}"))
+        # arguments of the operation
+        if kind == "ROWSUM":
+            a_ = [norm(x) for x in rs[0].args[1:3]]
+        else:
+            app = next(c for c in calls_in(I) if call_attr(c) == "append" and c.args and isinstance(c.args[0], ast.Tuple))
+            a_ = [norm(x) for x in app.args[0].elts[1:]]
+        if a_ != [names[g] for g in gargs]:
+            bad.append((I, f"{where}: the operation is applied to ({', '.join(a_)}) instead of ({', '.join(names[g] for g in gargs)})"))
+        seen[kind] = seen.get(kind, 0) + 1
+    missing = [k for k in _BLOCK_SPEC if k not in seen]
+    if missing:
+        raise AnalysisError(f"inverse_circuit: elimination block(s) {missing} not recognised")
+    if bad:
+        for node, why in bad:
+            ctx.fail("inverse.block-conditions", m, node, f"inverse_circuit, {why}", func="inverse_circuit", construct=f"inverse_circuit: {why[:70]}")
+    else:
+        ctx.ok("inverse.block-conditions", m, fn, what=f"{sum(seen.values())} blocks: sweep ranges, tested entry, (x, z) truth table, operation arguments")
+
+
 def rule_pivot_found(ctx: Ctx) -> None:
     """inverse.pivot-found: the first block of inverse_circuit walks the columns with a running pivot row and brings a generator acting on
     column j to that row (X, else Y, else Z + Hadamard).  When no generator at or below the pivot row acts on column j none of the
@@ -420,6 +530,7 @@ def run(ctx: Ctx) -> None:
     rule_replay(ctx)
     rule_graph_tableau_whole(ctx)
     rule_pivot_found(ctx)
+    rule_block_conditions(ctx)
     from ..rules import echelon as _echelon
     _echelon.rule_elim_direction(ctx)
     tm = repo.module(TR)
@@ -457,6 +568,9 @@ def _swap_blocks(src: str) -> str:
 
 
 KNOCKOUTS = [
+    Knockout("cz-block-condition-or", STABF, sub_once("            if tableau.x_matrix[j, k] == 0 and tableau.z_matrix[j, k] == 1:\n                circuit_list.append((\"CZ\", j, k))", "            if tableau.x_matrix[j, k] == 0 or tableau.z_matrix[j, k] == 1:\n                circuit_list.append((\"CZ\", j, k))"), "inverse.block-conditions", "CZ block"),
+    Knockout("cnot-block-inner-range", STABF, sub_nth("        for k in range(j + 1, n_qubits):\n            if tableau.x_matrix[j, k] == 1:", "        for k in range(j, n_qubits):\n            if tableau.x_matrix[j, k] == 1:", 0), "inverse.block-conditions", "CNOT block"),
+    Knockout("hadamard-block-on-y", STABF, sub_once("        if tableau.x_matrix[j, j] == 1 and tableau.z_matrix[j, j] == 0:", "        if tableau.x_matrix[j, j] == 1 and tableau.z_matrix[j, j] == 1:") if False else sub_once("        if tableau.x_matrix[j, j] == 1 and tableau.z_matrix[j, j] == 0:\n            circuit_list.append((\"H\", j))", "        if tableau.x_matrix[j, j] == 1:\n            circuit_list.append((\"H\", j))"), "inverse.block-conditions", "H block"),
     Knockout("graph-tableau-per-component", "graphiq/backends/stabilizer/functions/rep_conversion.py", sub_once("    tableau = get_stabilizer_tableau_from_graph(graph)\n    return clifford_from_stabilizer(tableau)\n", "    parts = [clifford_from_stabilizer(get_stabilizer_tableau_from_graph(graph.subgraph(c))) for c in nx.connected_components(graph)]\n    if len(parts) > 1:\n        return sfc.tensor(parts)\n    tableau = get_stabilizer_tableau_from_graph(graph)\n    return clifford_from_stabilizer(tableau)\n"), "graph.whole", "parts of the graph"),
     Knockout("prim-p-sign-or", TR, sub_nth("    tableau.phase = tableau.phase ^ multiply_columns(\n        tableau.table, tableau.table, qubit_position, n_qubits + qubit_position\n    )\n    # update the rest of the tableau\n    tableau.table = add_columns(", "    tableau.phase = tableau.phase ^ tableau.table[:, qubit_position]\n    # update the rest of the tableau\n    tableau.table = add_columns(", 0), "prim.formula", "phase_gate"),
     Knockout("replay-overwritten", RC, sub_once("    return transform.run_circuit(clifford_tableau, circuit, reverse=True)", "    clifford_tableau = transform.run_circuit(clifford_tableau, circuit, reverse=True)\n    clifford_tableau.stabilizer = stabilizer_tableau.table\n    return clifford_tableau"), "reverse.table", "edited before it is returned"),
